@@ -40,6 +40,15 @@ def check(rep, tier, seed):
         hs = 1 if r.chance(1, 4) else 0
         texts.append("case %d %d %d %s\nops %s\n" % (k, k, hs, fi["data"].hex(), " ".join(toks)))
         metas.append({"case": k, "Ns": fi["Ns"], "kinds": fi["kinds"], "halfrate": hs, "tests": " ".join(toks)[:300]})
+    # corpus of earlier failures (case line + ops line per file), appended with fresh case numbers
+    cdir = os.path.join(common.VERIF, "corpus", "C19")
+    for fn in sorted(os.listdir(cdir)) if os.path.isdir(cdir) else []:
+        ls = open(os.path.join(cdir, fn)).read().split("\n")
+        t = ls[0].split()
+        if len(t) == 5 and t[0] == "case" and ls[1].startswith("ops "):
+            k = len(texts)
+            texts.append("case %d %d %s %s\n%s\n" % (k, k, t[3], t[4], ls[1]))
+            metas.append({"case": k, "Ns": [], "kinds": ["corpus:" + fn], "halfrate": int(t[3]), "tests": ls[1][4:304]})
     shards = 16
 
     def one(i):
